@@ -36,12 +36,12 @@ Hypothesis nrm_real : forall v, conj (vnrm o vo v) = vnrm o vo v.
 Variables (A As : V -> V).
 Hypothesis A_adj : forall u v, dot u (A v) = dot (As u) v.            (* A is linear: it has an adjoint *)
 Variable solve : list (list T) -> list T -> list T.
-Variables (pad_buf selfref zero_nan : bool) (tol mfac : T) (m : nat) (b x0 : V).
+Variables (pad_buf selfref zero_nan abs_clip : bool) (tol mfac : T) (m : nat) (b x0 : V).
 Let r0 : V := vsub vo b (A x0).
 Hypothesis Hr0nz : vnrm o vo r0 <> 0.
 Hypothesis Hstart : start_den o zero_nan (vnrm o vo r0) = vnrm o vo r0.
-Hypothesis Hunc : forall k, (k < m)%nat -> unclipped o vo A selfref tol (acs o vo A selfref zero_nan tol r0 k).
-Let c : acol (T:=T) (V:=V) := acs o vo A selfref zero_nan tol r0 m.
+Hypothesis Hunc : forall k, (k < m)%nat -> unclipped o vo A selfref abs_clip tol (acs o vo A selfref zero_nan abs_clip tol r0 k).
+Let c : acol (T:=T) (V:=V) := acs o vo A selfref zero_nan abs_clip tol r0 m.
 Let h := hent o c.
 
 (* the pieces of gmres_y (flag cleared) *)
@@ -105,8 +105,8 @@ Lemma map_seq_nth (l : list T) (g : T -> T) : map (fun j => g (nth j l 0)) (seq 
 Proof. induction l as [|a l IH]; [reflexivity|]. cbn [length seq map nth]. f_equal. rewrite <- seq_shift, map_map. exact IH. Qed.
 
 (* ---- the coefficient vector of the code solves the normal equations of C13_Reduction ---- *)
-Notation Hfm := (Hf o vo A selfref zero_nan tol r0 m).
-Notation qfm := (qf o vo A selfref zero_nan tol r0 m).
+Notation Hfm := (Hf o vo A selfref zero_nan abs_clip tol r0 m).
+Notation qfm := (qf o vo A selfref zero_nan abs_clip tol r0 m).
 Lemma Hf_h i j : Hfm i j = h i j. Proof. reflexivity. Qed.
 
 Lemma ym_normal_equations i : (i < m)%nat ->
@@ -139,7 +139,7 @@ Lemma nth_firstn13 {X} : forall k (l : list X) d i, (i < k)%nat -> nth i (firstn
 Proof. induction k as [|k IH]; intros [|a l] d [|i] Hi; cbn; try reflexivity; try lia. apply IH. lia. Qed.
 Lemma firstn_qf : firstn m (aqs c) = map qfm (seq 0 m).
 Proof.
-  destruct (arnoldi_invariant o vo Fth conj_add conj_div dot_sub_r dot_scale_r dot_divs_r dot_sym nrm_sq nrm_real A selfref zero_nan tol r0 Hr0nz Hstart m Hunc m (le_n _)) as (_ & Lq & _).
+  destruct (arnoldi_invariant o vo Fth conj_add conj_div dot_sub_r dot_scale_r dot_divs_r dot_sym nrm_sq nrm_real A selfref zero_nan abs_clip tol r0 Hr0nz Hstart m Hunc m (le_n _)) as (_ & Lq & _).
   fold c in Lq. apply (nth_ext _ _ (alast c) (alast c)).
   - rewrite firstn_length, map_length, seq_length, Lq. lia.
   - intros i Hi. rewrite firstn_length, Lq in Hi. assert (i < m)%nat by lia.
@@ -178,7 +178,7 @@ Proof.
   assert (E : map (fun v => v * beta) y0 = map ym (seq 0 m)).
   { destruct Hsolve as [Ly _]. fold y0 in Ly. rewrite <- Ly. unfold ym. symmetry. apply (map_seq_nth y0 (fun v => v * beta)). }
   rewrite E.
-  apply (arnoldi_gmres_optimal o vo Fth conj_add conj_mul conj_opp conj_div dot_sub_r dot_scale_r dot_divs_r dot_sym nrm_sq nrm_real A selfref zero_nan tol r0 Hr0nz Hstart m Hunc Pos HP ym ym_normal_equations).
+  apply (arnoldi_gmres_optimal o vo Fth conj_add conj_mul conj_opp conj_div dot_sub_r dot_scale_r dot_divs_r dot_sym nrm_sq nrm_real A selfref zero_nan abs_clip tol r0 Hr0nz Hstart m Hunc Pos HP ym ym_normal_equations).
 Qed.
 
 (* corollary: the residual of the returned vector does not exceed that of the initial guess *)
@@ -189,28 +189,28 @@ Proof. intros HP. pose proof (gmres_model_minimal Pos HP []) as H. unfold cand, 
 (* ---- the same for gmres_fwd on one column, when the Arnoldi loop takes its m steps ---- *)
 Variable n : nat.
 Hypothesis Hmn : (m <= n)%nat.
-Hypothesis Hcond : forall k, (k < m)%nat -> arnoldi_cond o selfref tol (Nat.min m n) ([acs o vo A selfref zero_nan tol r0 k], k) = true.
+Hypothesis Hcond : forall k, (k < m)%nat -> arnoldi_cond o selfref tol (Nat.min m n) ([acs o vo A selfref zero_nan abs_clip tol r0 k], k) = true.
 
 Lemma arnoldi_loop_runs : forall fuel k, (k + fuel <= m)%nat ->
-  arnoldi_loop o vo A selfref tol (Nat.min m n) fuel ([acs o vo A selfref zero_nan tol r0 k], k) = ([acs o vo A selfref zero_nan tol r0 (k + fuel)], (k + fuel)%nat).
+  arnoldi_loop o vo A selfref abs_clip tol (Nat.min m n) fuel ([acs o vo A selfref zero_nan abs_clip tol r0 k], k) = ([acs o vo A selfref zero_nan abs_clip tol r0 (k + fuel)], (k + fuel)%nat).
 Proof.
   induction fuel as [|f IH]; intros k Hk; cbn [arnoldi_loop].
   - rewrite Nat.add_0_r. reflexivity.
   - rewrite Hcond by lia. unfold arnoldi_body. cbn [fst snd map].
-    change (arnoldi_step o vo A selfref tol (acs o vo A selfref zero_nan tol r0 k)) with (acs o vo A selfref zero_nan tol r0 (S k)).
+    change (arnoldi_step o vo A selfref abs_clip tol (acs o vo A selfref zero_nan abs_clip tol r0 k)) with (acs o vo A selfref zero_nan abs_clip tol r0 (S k)).
     rewrite IH by lia. rewrite Nat.add_succ_r. reflexivity.
 Qed.
 
-Lemma gmres_fwd_value : gmres_fwd o vo A solve false pad_buf selfref zero_nan tol mfac m n [b] [x0] = {| gsol := [xm]; gsteps := m |}.
+Lemma gmres_fwd_value : gmres_fwd o vo A solve false pad_buf selfref zero_nan abs_clip tol mfac m n [b] [x0] = {| gsol := [xm]; gsteps := m |}.
 Proof.
   unfold gmres_fwd, arnoldi_fact. cbn [combine map fst snd]. fold r0.
-  change (init_acol o vo zero_nan r0) with (acs o vo A selfref zero_nan tol r0 0).
+  change (init_acol o vo zero_nan r0) with (acs o vo A selfref zero_nan abs_clip tol r0 0).
   rewrite (arnoldi_loop_runs (Nat.min m n) 0) by (rewrite Nat.min_l by assumption; lia).
   rewrite Nat.min_l by assumption. cbn [Nat.add fst snd combine map]. destruct pad_buf; reflexivity.
 Qed.
 
 Theorem gmres_fwd_minimal (Pos : T -> Prop) : (forall v, Pos (dot v v)) ->
-  exists x, gsol (gmres_fwd o vo A solve false pad_buf selfref zero_nan tol mfac m n [b] [x0]) = [x] /\ gsteps (gmres_fwd o vo A solve false pad_buf selfref zero_nan tol mfac m n [b] [x0]) = m /\
+  exists x, gsol (gmres_fwd o vo A solve false pad_buf selfref zero_nan abs_clip tol mfac m n [b] [x0]) = [x] /\ gsteps (gmres_fwd o vo A solve false pad_buf selfref zero_nan abs_clip tol mfac m n [b] [x0]) = m /\
     (forall y' : list T, Pos (dot (vsub vo b (A (cand y'))) (vsub vo b (A (cand y'))) - dot (vsub vo b (A x)) (vsub vo b (A x)))) /\
     Pos (dot r0 r0 - dot (vsub vo b (A x)) (vsub vo b (A x))).
 Proof.
